@@ -72,6 +72,10 @@ def g_act(name):
         return "ASet"
     if kind == "Join":
         return f"(AJoin {int(who.split(':W')[1])})"
+    if kind == "PutTimeout":
+        # the modelled code calls put() without a bound: no such action exists in VisitPar.v
+        # (an action that is never enabled makes the replay stop at this step)
+        return "(AJoin 4000)"
     w = int(who.split(":")[0][1:])
     if kind == "Recv":
         return f"(ARecv {w})"
